@@ -27,8 +27,14 @@ def cases(draw):
     elif mode == 'sub-only' and subdirs:
         roots = [draw(st.sampled_from(subdirs))]
     link = None
-    if subdirs and draw(st.integers(0, 3)) == 0:
-        link = {'at': draw(st.sampled_from([''] + subdirs)), 'name': 'zqlink', 'to': draw(st.sampled_from(subdirs))}
+    if subdirs and draw(st.integers(0, 2)) == 0:
+        # a symlinked directory; its *name* may be one the cleanup must stay out of (a redirected __pycache__, a linked
+        # VCS directory): then what it points to is only protected by that name.  Such links preferably point into a
+        # place that is not searched otherwise.
+        name = draw(st.sampled_from(['zqlink', 'zqlink', '__pycache__', '__pycache__', '.git', 'CVS', 'zq-link']))
+        hidden = [p for p in subdirs if any(x in fstree.IGNORED_DIRS or not fstree.identifier(x) for x in p.split(os.sep))]
+        pool = hidden if (hidden and name not in ('zqlink', 'zq-link') and draw(st.booleans())) else subdirs
+        link = {'at': draw(st.sampled_from([''] + subdirs)), 'name': name, 'to': draw(st.sampled_from(pool))}
     return {'tree': tree, 'roots': roots, 'link': link,
             'opt': draw(st.sampled_from(['none', 'none', 'none', '-k', '--usecompiled'])),
             'ignore_dir': draw(st.sampled_from([None, None] + sorted({os.path.basename(p) for p in subdirs})[:4])),
@@ -119,7 +125,11 @@ class Cleanup(Part):
                     has_link = True
             before = snapshot(base)
             cls = classify(case, base, before)
-            if has_link:
+            followed = has_link and link['name'] != '__pycache__' and link['name'] not in DEFAULT_IGNORE \
+                and link['name'] != case['ignore_dir']
+            if has_link and not followed:
+                labels.append('symlink-with-protected-name')
+            if followed:
                 # through a link the same directory is reachable under a second path: anything that is an orphan
                 # in the link target may be reached that way
                 for p, k in list(cls.items()):
